@@ -139,6 +139,12 @@ func (g *c15Graph) files(r *RNG) (fstest.MapFS, map[string][]string) {
 			fmt.Fprintf(&sb, "var v%d_%d = mark%d_%d()\nfunc mark%d_%d() int { println(%q); return 1 }\n", pi, f, pi, f, pi, f, m1)
 			fmt.Fprintf(&sb, "func init() { println(%q) }\n", m2)
 			markers[p.path] = append(markers[p.path], m1, m2)
+			if r.Intn(3) == 0 { // top-level code that needs local slots of the run frame (loop variables, an if-init)
+				m3 := fmt.Sprintf("loop %s %d", p.path, f)
+				k := 1 + r.Intn(4)
+				fmt.Fprintf(&sb, "var acc%d_%d = 0\nfor i := 0; i < %d; i++ {\n\tfor j := 0; j < 2; j++ {\n\t\tacc%d_%d += i + j\n\t}\n}\nif t := acc%d_%d; t >= 0 {\n\tprintln(%q)\n}\n", pi, f, k, pi, f, pi, f, m3)
+				markers[p.path] = append(markers[p.path], m3)
+			}
 			name := fmt.Sprintf("%s/%c%d.go", p.dir, 'a'+byte(r.Intn(20)), f)
 			fs[name] = &fstest.MapFile{Data: []byte(sb.String())}
 		}
